@@ -195,5 +195,14 @@ Reusable(o, a) ==
 BusyReq(o, a) == LET r == Req(o, a) IN r.known /\ r.head /\ ~r.bad /\ Wire(o, a).ends = 0
 Busy(o) == \E a \in DOMAIN o.reqs : BusyReq(o, a)
 
+(* HTTP/1: a pipelined request whose head has arrived but which has not been served *)
+ParkedPipeline(o) == \E a \in DOMAIN o.reqs : Req(o, a).head /\ Req(o, a).idx > 1 /\ App(o, a).started = 0
+                                                /\ Req(o, a).ver # "2"
+
+(* an application that will never drain its queue: it ended (or is ending) with request messages unread *)
+UnreadLeft(o) == \E a \in DOMAIN o.apps :
+                    /\ App(o, a).started > 0 /\ Req(o, a).known /\ Req(o, a).head
+                    /\ (App(o, a).recvd < Req(o, a).body \/ (Req(o, a).done /\ App(o, a).ended = 0))
+
 F(clause, ctx) == <<clause, ctx>>
 =============================================================================
